@@ -53,7 +53,8 @@ CHECKS = {
         "c04_marker_merge_sorted, c04_selection_keyed_by_parent, c04_selection_result_order_independent / _keys / _total (the returned lookup lists the parents in parent_list order whatever the completion order: finding F19c04, repaired in /repo 9a355c6), c04_pool_invariant, c04_selection_schedule_independent, c04_cache_sorted_by_reference_index / c04_cache_groups_strictly_sorted / c04_cache_independent_of_listing (the marker cache depends only on the SET of genes under each key: where hash-seed dependence would enter). Tie: the real stages (run_mapping, run_type_assignment_on_h5ad, statistics, markers, p-value mask, selection) under "
         "every completion order of 3 (quick) / 4 (thorough) workers forced by harness-side delays, worker-count sweeps 1..6, and fresh interpreters under several PYTHONHASHSEED "
         "values; outputs compared bitwise; observed chunks, completion order and per-worker seeds compared with the model.",
-   note="After the audit of section 15: stats_result folds the buffers in the order read off the EStart events of the log and c04_stats_buffer_order_is_dispatch_order proves that order is seq 0 k for every world; "
+   note="c04_same_chunks_same_result carries 1 <= c (chunk size 0 makes the real iterator yield empty chunks for ever); c04_stats_merge_order_fixed fixes one worker count (another count is another split: sums agree to rounding only, which is what C09 promises). Worker sweep of the marker stage on references with identical twin clusters; "
+        "forced completion orders always include the one that keeps both ends in place. After the audit of section 15: stats_result folds the buffers in the order read off the EStart events of the log and c04_stats_buffer_order_is_dispatch_order proves that order is seq 0 k for every world; "
         "mapping_result takes the world and the worker count (c04_same_chunks_same_result: equal effective chunking, any clean worlds, any append orders -> the sequential result; c04_small_chunk_size_used_as_given; tie tag 407); "
         "the final drain of select_all_markers no longer extends completed_parents in the model (as in the code: observed through the frame's locals), c04_pool_invariant at every state of the outer loop, c04_pool_invariant_after_final_drain. "
         "Partial by nature: real scheduling, Manager proxies and the absence of other nondeterminism (shared state, set/dict order) are established only by the bitwise runs. "
@@ -79,7 +80,10 @@ CHECKS = {
         "showing the guard matters). Tie: convert_to_cpm (exact stream / 1e-12 stream decided per row), CellByGeneMatrix constructor and random operation sequences, "
         "write_query_markers_to_h5 + is_data_ge_zero + AnnDataRowIterator + assemble_query_data vs prepare_query, plus paired real run_mapping runs (raw vs "
         "pre-normalised, scaling, gene permutation, extra genes, negative value rejected).",
-   note="The theorems are about prepare_query (the per-parent query matrices); the bridge to the result is proved: c07_equal_profile_equal_vote / c07_equal_parent_matrix_equal_vote (equal rows on a parent's markers -> equal vote_record and decide_vote, generator state included) "
+   note="After the third audit: the *_vote theorems are corollaries by construction (c07_same_votes_is_eq: same_votes m1 m2 <-> m1 = m2; said so); the bridge with content is c07_prepared_row_is_the_compared_row (lists and indices derived from the real cache: the row prepare_query hands over is, column for column, "
+        "the row the reference side of C18 is compared with). Domain: integer counts whose row sums (x k) are exact in the storage dtype (< 2^24 float32, < 2^53 float64): c07_float_sum_exact_below_2_24, c07_float_sum_order_matters; outside it the real code is generated and judged too: "
+        "rounding-level change under scaling is allowed by the property, a permuted raw non-integer file that is not bitwise equal is the known finding F28. c07_guard_lost_by_downsample_cells (observation). Same-path histories (clean then negative file) are part of the tie. "
+        "The theorems are about prepare_query (the per-parent query matrices); the bridge to the result is proved: c07_equal_profile_equal_vote / c07_equal_parent_matrix_equal_vote (equal rows on a parent's markers -> equal vote_record and decide_vote, generator state included) "
         "and the composed c07_scale_invariant_vote, c07_scale_invariant_rational_vote, c07_raw_equals_declared_vote, c07_gene_permutation_vote, c07_extra_genes_vote, c07_only_marker_values_by_name_vote; c07_scale_invariant_rational_matrix lifts the rational factor to the matrix. "
         "Raw counts and factors are integers (or a rational factor between two integer matrices): the harness generates integer counts and says so in its evidence; non-integer factors change log2CPM by ~1e-15 in the real code, which the property allows (bitwise only for permutation / extra genes). The only assumption about log2(1+.) is "
         "that it depends on the value of its argument alone. Floating-point rounding is outside the model: values compared exactly where every float operation is "
@@ -117,7 +121,7 @@ CHECKS = {
         "c10_drop_preserves, c10_drop_errors, c10_drop_many_preserves, c10_drop_keeps_leaf_lists, c10_drop_leaf_preserves, c10_flatten_preserves, c10_roundtrip_preserves, "
         "c10_backfill_spec, c10_backfill_fills. Tie: every tree shape with <= 4 levels and <= 5 (quick) / 6 (thorough) leaves in canonical and shuffled variants, random larger trees, "
         "one-edit mutants, label tables (also through from_h5ad), random drop sequences and backfill records, through every public TaxonomyTree method vs the extracted model.",
-   note="Serialise / re-read: Model/TreeReread.v (clean_for_json sorts sets only; which collections are sets is an explicit flag list), c10_child_order_irrelevant, c10_reread_preserves, c10_reread_shape, tie tag 1050 against from_str(to_str()) and json round trips; "
+   note="NoDup hierarchy is a stated precondition (the validator guarantees it since /repo 8a57862: finding F29, a repeated level name, fixed); leaf names with '/' are generated. Serialise / re-read: Model/TreeReread.v (clean_for_json sorts sets only; which collections are sets is an explicit flag list), c10_child_order_irrelevant, c10_reread_preserves, c10_reread_shape, tie tag 1050 against from_str(to_str()) and json round trips; "
         "queries on non-nodes: c10_queries_total_on_nodes, c10_drop_preserves_on_nodes, c10_roundtrip_on_nodes (the checked queries raise where the code raises); c10_backfill_models_agree links Tree.backfill and RunMapping.backfill; "
         "the tree must not alias the caller's dict (in-place edits of the source, all queries re-asked) is part of the tie. F3 (validator accepted a child listed twice) was repaired in /repo (ce0265d); the model follows the repaired validator and the statements that needed repetition-free child lists "
         "now hold for every accepted tree. from_data_release / from_precomputed_stats / from_json_file constructors not exercised; level names distinct and not reserved keys.",
@@ -129,7 +133,9 @@ CHECKS = {
         "c12_pair_order_irrelevant, c12_greedy_order_irrelevant, c12_behemoth_order_is_permutation, c12_thinning_sound. Tie: trace refinement — the gene sequence returned by "
         "select_marker_genes_v2 / _run_selection is replayed through the model (every step legal, finished exactly at the end; mutilated sequences must be rejected) and census, "
         "final utility array and statistics compared; select_all_markers / create_marker_gene_lookup_from_ref_list over workers 1..4 x behemoth cut-offs {0,1,1e9}; independent census.",
-   note="Every genes_at_a_time >= 1 (Model/SelectionK.v: argsort only when a slot was newly filled, k pops with nothing recomputed, breaks only between batches): c12_batch_one_is_step, c12_batch_no_duplicates, c12_batch_coverage, c12_batch_spec_holds, "
+   note="numpy's own rule is proved legal: c12_numpy_rule_is_legal / _meets_spec (+ _batch for every k) for every sorter satisfying is_argsort (checked on every np.argsort result the harness hands to the model; c12_an_argsort_exists); "
+        "pair-order, threshold and names theorems for every genes_at_a_time: c12_batch_pair_order_irrelevant, c12_batch_threshold_core / _irrelevant, c12_batch_selected_names_are_query_markers, c12_select_with_is_k1, c12_select_parent_is_k1 (tie tags 1264-1266, k in {2,3,5}). "
+        "Every genes_at_a_time >= 1 (Model/SelectionK.v: argsort only when a slot was newly filled, k pops with nothing recomputed, breaks only between batches): c12_batch_one_is_step, c12_batch_no_duplicates, c12_batch_coverage, c12_batch_spec_holds, "
         "c12_batch_trace_legal (a batch has 1..k genes, each of positive and maximal utility; shorter than k only when nothing useful is left), c12_batch_invariant_preserved, c12_batch_terminates, c12_batch_iterations_bounded, "
         "c12_batch_length_exact, c12_batch_genes_are_markers, c12_batch_full_invariant_preserved; the model first showed that for k >= 2 the real loop selected genes marking no pair of the parent and could raise IndexError / RuntimeError on valid tables (findings F23-F25): "
         "repaired in /repo (0bb86f4: a batch stops early when no useful gene is left), and the three refutations became the positive c12_batch_in_query_and_marker, c12_batch_never_raises, c12_batch_full_spec (spec_c12 on every completed run, every k). np.argsort tie order is an input for the trace replay, and the code's own rule is modelled too: run_with / select_with for an arbitrary pick rule of the utility-array history, pick_pop = numpy's stale-argsort pop for ANY argsort (c12_pick_function_order_irrelevant, c12_rules_respect, c12_select_with_is_legal_run, c12_greedy_is_pick_instance, c12_recorded_trace_is_pick_instance; tie tags 1262-1263: the real np.argsort results handed back as a table, gene by gene); the behemoth / downsampled table is modelled (downsample_pairs) and proved to carry the same marks (c12_downsample_preserves_marks, c12_threshold_core, c12_threshold_irrelevant; tie 1260); per-parent loop with short-circuit, overlap refusal and override lookup (select_parent: c12_parent_short_circuit, c12_parent_run_has_pairs, c12_empty_overlap_refused, c12_overlap_needed, c12_override_applies_to_its_parent_only; tie 1261 against select_all_markers); c12_selected_names_are_query_markers states the clause by gene NAME of the reference file; c12_greedy_order_irrelevant is about a tie-break the code does not use (kept, labelled); the coverage theorem's hypothesis (no gene both ways) is checked on every generated table and shown "
@@ -143,7 +149,7 @@ CHECKS = {
         "c13_parallel_empty, c13_slices_partition, c13_copy_h5_1d/2d, c13_copy_layer_sparse/dense. Tie: every 0/1 pattern up to 3x3 (quick) / 4x4 (thorough) + random larger matrices "
         "through transpose_sparse_matrix_on_disk, csc_to_csr_on_disk, the v2 parallel version (1-4 workers), pivot_csr_h5ad, shuffle_csr_h5ad_rows, subset_csc_h5ad_columns, "
         "amalgamate_h5ad, copy_layer_to_x, copy_h5_excluding_data, with observed loop bounds compared to the model's.",
-   note="Guards made explicit after the audit (section 15): a slice has lo <= hi (c13_parallel_slices: the only caller never hands out another one), the pointer array is well formed in c13_transpose_is_spec / c13_parallel_concat, "
+   note="value clauses of the transposition theorems carry `use_data = true -> no_dup_minor m` (with duplicate (row, col) entries np.argsort is unstable and the real values depend on the worker count: c13_example_duplicates_excluded); mixed-dtype amalgamation (F27, fixed) is generated. Guards made explicit after the audit (section 15): a slice has lo <= hi (c13_parallel_slices: the only caller never hands out another one), the pointer array is well formed in c13_transpose_is_spec / c13_parallel_concat, "
         "c13_count_pass needs minor indices < n (Python raises IndexError otherwise), c13_amalgamate's dense clause needs a source and a column; c13_parallel_exact (direct value clause), c13_copy_layer_dense_total, "
         "c13_amalgamate_rowcount_unchecked (amalgamate_csr_to_x never validates the row count: the model now does what h5py does; tie harness/props/c13_guards.py). shuffle / subset / amalgamate are proved too: c13_shuffle_rows (every permutation; the non-permutation reading refuted by c13_shuffle_rows_sublist_refuted: shuffle_csr_h5ad_rows does not "
         "validate its order), c13_subset_columns, c13_amalgamate, c13_amalgamate_join, c13_amalgamate_wire; gzip not modelled; "
@@ -155,7 +161,8 @@ CHECKS = {
         "no runner-up fields), c17_flatten_equals_one_level, c17_drop_absent_level_noop, c17_backfilled_path (the completed cell is a flagged root-to-leaf path of the stored "
         "tree), c17_no_key_error, c17_total, c17_reduced_tree_parents (ancestors in the reduced tree = stored ancestors without the dropped level). Tie: real drop_level / flatten / backfill_assignments on every tree shape up to 4 levels x every droppable level / flatten / absent "
         "level vs the model; every query (parents, children, as_leaves, leaves_to_compare) of the really reduced TaxonomyTree vs the model's reduced tree; oracle election on the really reduced tree; paired real run_mapping runs compared bitwise and replayed through the model.",
-   note="c17_drop_equals_reduced / c17_flatten_equals_one_level compare two runs that execute the same election on the reduced tree (c17_both_runs_same_election says so); what they prove is the backfill relation; strict forms without the KeyError alternative: "
+   note="Instantiated with the real marker model (Model/RunMappingMarkers.v: cache_ok := create_cache = MOk, decide reads the table through Markers.used): c17_removed_entries_same_lists, c17_drop_named_equals_reduced_filtered, c17_drop_equals_never_had_level_refuted (an entry of the removed level holding a gene unknown to the reference makes cache creation fail although validation never consults it; with the same file both real runs raise alike). "
+        "Absent drop levels with prefix-like names, absent+flatten and per-level bootstrap lookups are part of the paired runs. c17_drop_equals_reduced / c17_flatten_equals_one_level compare two runs that execute the same election on the reduced tree (c17_both_runs_same_election says so); what they prove is the backfill relation; strict forms without the KeyError alternative: "
         "c17_drop_equals_reduced_strict, c17_flatten_equals_one_level_strict. Marker-table keys: Model/RunMappingKeys.v rekey, c17_marker_key_convention, c17_drop_equals_reduced_named, c17_flatten_ignores_keys, c17_removed_entries_not_consulted (tie tag 1707 against the real validate_marker_lookup on the really dropped tree). "
         "Vote, marker reconciliation, chunking and re-ordering are abstract or outside RunMapping.v (C02/C08/C01/C04); tree_ok adds 'no childless internal node' to the "
         "validator's guarantees (F3).",
@@ -167,7 +174,9 @@ CHECKS = {
         "and each ends as in its solo run). Tie: the four real stages run under strace -f in child interpreters; parsed traces decided by the extracted acceptor, the model's "
         "final file system compared with the observed listing; digests, listings and results compared with an undisturbed run; histories: success after success / failure / "
         "injected worker failure, stale files under every temporary-name pattern, obsm_key, concurrent pairs replayed as one interleaving, direct calls of the type-assignment stage with a shared results_output_path (stale buffers under every plausible name), runs without a scratch directory (system temp and working directory observed).",
-   note="FileTracker + mkstemp_clean + _clean_up are modelled as a state machine (Model/Tracker.v) with theorems over arbitrary op sequences of one tracker life: c19_tracker_inputs_untouched (+ _no_tmp_refuted: with tmp_dir=None the real_location IS the input), "
+   note="Acceptor: Stat observations (refused on stale entries: code 12), a pre-existing declared output is never deleted (code 13, c19_preexisting_output_never_deleted), programs (functions from the observation history to the next op): c19_stale_independence_program, c19_program_run_is_accepted_trace, "
+        "c19_stale_independence_up_to_probes (fresh vs stale outputs: traces equal after erasing the probe ops). Tracker theorems hold relative to the set of paths the environment writes (no protocol assumed); c19_tracker_premise + tag 1954: the premise is evaluated on a recorded real run_mapping life on every run. "
+        "F30 (probe through a dangling symlink) fixed in /repo ecb653f. FileTracker + mkstemp_clean + _clean_up are modelled as a state machine (Model/Tracker.v) with theorems over arbitrary op sequences of one tracker life: c19_tracker_inputs_untouched (+ _no_tmp_refuted: with tmp_dir=None the real_location IS the input), "
         "c19_tracker_scratch_empty, c19_tracker_outputs_only_where_requested, c19_tracker_location_holds_last_write, c19_tracker_copy_faithful, c19_tracker_independent_of_stale, c19_tracker_life_keeps_wf; tie tags 1950-1953 (real FileTracker lives, state compared after every call). "
         "Partial by nature: the acceptor theorems speak about accepted traces; that real runs produce accepted traces is established only for the runs traced. tempfile uniqueness, CPython "
         "destructor timing, HDF5's O_RDWR probe and stat-like probes are outside the model. F9 / F9c / F9d (result buffer and query-marker file left behind by failed runs or runs without a scratch dir) were repaired in /repo (70038ee); F9b (log appended to an earlier log) stays a known finding.",
@@ -203,7 +212,8 @@ CHECKS = {
         "against stand-in processes following the model's world (virtual schedules) and exhaustive fault injection with forked workers — 3 failure modes (SIGKILL, os._exit(3), raise) x "
         "3 crash points x every worker on all six stages (+ the nested transposition) — observing exception, exit codes, listings after all descendants exit, JSON/HDF5 keys, log text "
         "and whether the next stage accepts what is left.",
-   note="exit codes are modelled mod 256 (c14_abnormal_codes, c14_exit_256_refuted: os._exit(256) is invisible to the parent; tie tag 1406 on real forked workers); c14_failed_run_leaves_query_untouched, c14_early_failure_no_obsm; "
+   note="c14_abnormal_codes needs exit_arg_ok (-2^31 <= k < 2^31: os._exit(2**31) raises OverflowError and exits 1) and terminating_signal (Model/ExitCode.v, checked with all 64 signals); failure points inside `finally`: c14_failure_in_finally_after_success, c14_hdf5_failure_effects "
+        "(an unwritable HDF5 path raises after the success message: no worker failed, so outside the property's antecedent; observed). exit codes are modelled mod 256 (c14_abnormal_codes, c14_exit_256_refuted: os._exit(256) is invisible to the parent; tie tag 1406 on real forked workers); c14_failed_run_leaves_query_untouched, c14_early_failure_no_obsm; "
         "c14_failed_trace_has_property and c14_no_complete_output are finite checks GIVEN the transcription of the stages in Model/Pool.v / RunEffects.v (said so in their comments); completed_parents of the selection scheduler is observed through the frame's locals. "
         "Partial by nature: the OS, multiprocessing and the stage code's conformance to the models are validated by controlled runs, not proved. A hanging worker, a dying Manager process and a crash of the parent are not modelled. The clean-up race of the finally blocks (siblings "
         "still writing when the parent removes the scratch dir: OSError replaces RuntimeError about 1 in 300) is an oracle input.",
@@ -213,7 +223,9 @@ CHECKS = {
         "c15_roundtrip_without_uniform_flags_refuted (necessity), c15_csv_rows, c15_four_decimals (+ c15_csv_confidence_four_decimals_refuted), "
         "c15_query_order, c15_tree_reconstructs. Tie: generated result blobs (depth 1-5, names with commas/quotes/newlines, 0..k runners-up, inferred "
         "levels, malformed stream) through the real blob_to_csv / blob_to_hdf5 / hdf5_to_blob / re_order_blob / to_str-from_str vs the extracted model.",
-   note="CSV text and %.4f are modelled and proved (Model/CsvText.v: Python 3.12 csv.writer as pandas calls it, the pandas C tokenizer state by state, comment='#'): c15_csv_text_roundtrip, c15_csv_text_injective, c15_csv_comment_lines_safe, "
+   note="Columns are keyed by READABLE level name as in blob_to_df (c15_csv_rows under NoDup readable names; c15_csv_duplicate_readable_level_refuted: finding F31, fixed in /repo 9eca1ef); the two halves are connected: blob_to_csv_text = csv_file comments (header :: rows) with the confidence rendered by fmt4, "
+        "c15_csv_text_of_blob_roundtrip, c15_fmt4_rat_text_is_percent_4f, c15_csv_confidence_text_reads_four_decimals, c15_csv_row_text_starts_nonblank (pandas looks back into its buffer only on rows starting with a blank: F32), negative values in c15_fmt4_digits_roundtrip; tag 1555 compares the whole file byte for byte; "
+        "NUL and non-scalar code points excluded. CSV text and %.4f are modelled and proved (Model/CsvText.v: Python 3.12 csv.writer as pandas calls it, the pandas C tokenizer state by state, comment='#'): c15_csv_text_roundtrip, c15_csv_text_injective, c15_csv_comment_lines_safe, "
         "c15_dyadic_is_the_value, c15_fmt4_nearest, c15_fmt4_ties_even, c15_fmt4_monotone, c15_fmt4_unit_interval, c15_fmt4_digits_roundtrip; refuted with witnesses: c15_csv_hash_cell_id_row_vanishes_refuted, c15_csv_hash_in_name_truncates_row_refuted (F20), "
         "c15_csv_carriage_return_refuted (F21); tie tags 1550-1554: file text byte for byte, tokenizer output, documented read-back, '%.4f' on doubles incl. exact ties. gzip, h5py and json float printing are trusted; floats finite; F15 (column decided by substring of the level name) is a known finding.",
    technique=TECH, ref="DESIGN.md section 7 C15"),
